@@ -54,6 +54,7 @@ impl RouterProxy {
                 msg_sender,
                 wakeup_sender,
                 shutdown: false,
+                shutdown_ack: None,
             }),
         }
     }
@@ -78,23 +79,34 @@ impl RouterProxy {
     /// Calling it is idempotent,
     /// which can be useful when running a multi-process system in single-process mode.
     pub fn shutdown(&self) {
-        let mut comm = self.comm.lock().unwrap();
+        let ack_receiver = {
+            let mut comm = self.comm.lock().unwrap();
 
-        if comm.shutdown {
-            return;
-        }
-        comm.shutdown = true;
+            match comm.shutdown_ack {
+                // Shutdown was already requested: wait for the same acknowledgement.
+                Some(ref ack_receiver) => ack_receiver.clone(),
+                None => {
+                    comm.shutdown = true;
 
-        let (ack_sender, ack_receiver) = crossbeam_channel::unbounded();
-        comm.wakeup_sender
-            .send(())
-            .map(|_| {
-                comm.msg_sender
-                    .send(RouterMsg::Shutdown(ack_sender))
-                    .unwrap();
-                ack_receiver.recv().unwrap();
-            })
-            .unwrap();
+                    let (ack_sender, ack_receiver) = crossbeam_channel::unbounded();
+                    comm.shutdown_ack = Some(ack_receiver.clone());
+                    comm.wakeup_sender
+                        .send(())
+                        .map(|_| {
+                            comm.msg_sender
+                                .send(RouterMsg::Shutdown(ack_sender))
+                                .unwrap();
+                        })
+                        .unwrap();
+                    ack_receiver
+                },
+            }
+        };
+        // Wait without holding the lock, so that `add_route` calls made meanwhile (including
+        // those made by callbacks running on the router thread) are not blocked.
+        // The router drops the acknowledgement sender once it has stopped, which releases
+        // every waiter (the first one may also receive the confirmation message).
+        let _ = ack_receiver.recv();
     }
 
     /// A convenience function to route an `IpcReceiver<T>` to an existing `Sender<T>`.
@@ -130,6 +142,8 @@ struct RouterProxyComm {
     msg_sender: Sender<RouterMsg>,
     wakeup_sender: IpcSender<()>,
     shutdown: bool,
+    /// Set once shutdown was requested; disconnected once the router has stopped.
+    shutdown_ack: Option<Receiver<()>>,
 }
 
 /// Router runs in its own thread listening for events. Adds events to its IpcReceiverSet
@@ -186,16 +200,22 @@ impl Router {
                                 self.handlers.insert(new_receiver_id, handler);
                             },
                             RouterMsg::Shutdown(sender) => {
-                                sender
-                                    .send(())
-                                    .expect("Failed to send comfirmation of shutdown.");
-                                break;
+                                // Drop every callback (and whatever it owns) before
+                                // acknowledging, then stop for good.
+                                self.handlers.clear();
+                                let _ = sender.send(());
+                                return;
                             },
                         }
                     },
                     // Event from one of our registered receivers, call callback.
                     IpcSelectionResult::MessageReceived(id, message) => {
                         self.handlers.get_mut(&id).unwrap()(message)
+                    },
+                    IpcSelectionResult::ChannelClosed(id) if id == self.msg_wakeup_id => {
+                        // The proxy was dropped: nobody can reach this router any more.
+                        self.handlers.clear();
+                        return;
                     },
                     IpcSelectionResult::ChannelClosed(id) => {
                         let _ = self.handlers.remove(&id).unwrap();
